@@ -67,12 +67,16 @@ def _arg_text(a):
     return "nil" if a == "nil" else "%s#%s" % (_ty(a[1]), a[2])
 
 
+_ERR_KINDS = {"0": "a nil error", "1": "a non-nil error",
+              "2": "a non-nil error that itself is a *FunctionCallError with IsFunctionReportedError=false",
+              "3": "a non-nil error that itself is a *FunctionCallError with IsFunctionReportedError=true"}
+
+
 def _describe(pl):
     mode, sig, decl = pl[1], pl[2], pl[3]
     s = "%s with handler %s" % (_decl_text(mode, decl), _sig_text(sig))
     if pl[0] == "call":
-        s += "; Call([%s]); handler returns %s error" % (", ".join(_arg_text(a) for a in pl[4][1:]),
-                                                         "a non-nil" if pl[5][2] == "1" else "a nil")
+        s += "; Call([%s]); handler returns %s" % (", ".join(_arg_text(a) for a in pl[4][1:]), _ERR_KINDS.get(pl[5][2], pl[5][2]))
     return s
 
 
@@ -135,13 +139,16 @@ def function_direct(case, obs):
             return "Call returned an error that is not a *FunctionCallError: " + what
         if "with-value" in o:
             return "Call returned a value together with an error: " + what
+        if o[2] == "shape" and "handler-ran" in o and pl[5][2] in ("2", "3"):
+            return ("an error returned by the handler (a value that itself is a *FunctionCallError) was reported as NOT "
+                    "function-reported: " + what)
         if o[2] == "shape" and "handler-ran" in o:
             return "Call ran the handler and then reported a call-shape problem: " + what
         if o[2] == "reported" and "not-the-handlers-error" in o:
             return "a function-reported error is not the error the handler returned: " + what
         if o[2] == "reported" and got != declared:
             return "a wrong argument count (%d for %d) was reported as a function-reported error: %s" % (got, declared, what)
-        if o[2] == "reported" and pl[5][2] != "1":
+        if o[2] == "reported" and pl[5][2] == "0":
             return "Call reports a function error although the handler returned a nil error: " + what
     if o[1] == "ok":
         if got != declared:
@@ -184,7 +191,10 @@ def register(props):
                 "(none, T, error, (T,error), extra results, non-error last, wrong order, a struct NAMED error, a struct "
                 "implementing error, (error,error)) x variadic variants x {the declaration the signature was written for, every "
                 "declaration differing from it in one place} x both constructors; calls with the declared arguments, nil / a "
-                "wrongly typed value at each position, every other length 0..4, handler returning nil and non-nil errors; plus "
+                "wrongly typed value at each position, every other length 0..4, handler returning nil and non-nil errors, and "
+                "(handler-behaviour dimension) error VALUES that themselves are *FunctionCallError with the flag false / true, as "
+                "a handler passes on from an inner call; result lists that extend an accepted one ((any, error) / (T, error) "
+                "followed by one or two more results) for every parameter tuple of length 0..2 and both constructors; plus "
                 "seeded random signatures with nested types; distinct by case text; non-trivial = handler has a parameter or "
                 "result and, for a call, the constructor accepted it",
         "assumptions": ["the handler is a func value (a nil or non-func handler is outside the property's quantifier)",
@@ -197,7 +207,8 @@ def register(props):
                       "interface type I, not variadic; on an accepted function a call with fitting arguments returns exactly the "
                       "handler's value / the handler's error as function-reported; a wrong count or an unfitting argument is a "
                       "not-function-reported error; no argument list makes Call panic; a function-reported error is always the "
-                      "handler's own.",
+                      "handler's own; a non-nil handler error is function-reported whatever value it is (the error type is "
+                      "abstract: a value that itself is a call error flagged not-function-reported changes nothing).",
         "level_note": "Model = Call/Function.v (hand-written from schema/function.go after the fixes for D35, D38, D39), tied to the "
                       "code by running the real constructors and Call on the full signature matrix; Go's assignability is modelled "
                       "for the types that occur (identity, or an interface the type implements).",
